@@ -50,6 +50,8 @@ TA MakeTA(const json& j, Alpha& alpha);
 // read back through the public iteration interface (a bag: duplicates stay visible)
 json ReadTA(const TA& aut, const Alpha& alpha);
 json StateMapToJson(const VATA::AutBase::StateToStateMap& m);
+size_t StIn(size_t q);       // case state number -> library state number ("huge" presentation)
+size_t StOut(size_t q);
 std::string ExcName(const std::exception& e);
 
 #endif
